@@ -21,7 +21,13 @@ try:
         t0 = time.time()
         r = subprocess.run(["./check", p, tier], cwd="/verif", capture_output=True, text=True)
         viol = [l for l in r.stdout.splitlines() if l.startswith("VIOLATION")]
-        outcome = "caught" if (r.returncode == 1 and viol) else ("missed" if r.returncode == 0 else "check-error")
+        withinput = [l for l in viol if not l.rstrip().endswith("no-failing-input-found")]
+        if r.returncode == 1 and withinput:
+            outcome = "caught"
+        elif r.returncode == 1 and viol:
+            outcome = "caught-no-failing-input"  # a proof obligation / regenerated fact broke, no concrete input found
+        else:
+            outcome = "missed" if r.returncode == 0 else "check-error"
         res[p] = outcome
         print(f"{sid} {p} {tier}: {outcome} ({len(viol)} violation lines, {time.time()-t0:.0f}s)")
         if viol:
